@@ -212,6 +212,7 @@ func cmdCheck(args []string) int {
 		}
 	}
 	boundedCache := map[*checkUnit]*boundedResult{}
+	fuzzCache := map[*checkUnit]ReplayResult{}
 	all := append([]*Obligation{}, obls...)
 	all = append(all, subsetViolations...)
 	for _, o := range all {
@@ -261,6 +262,19 @@ func cmdCheck(args []string) int {
 				if br, ok := v.boundedSearch(u, K, outDir, timeout, boundedCache); ok {
 					br.Detail = "found by bounded instance search (loops unrolled " + strconv.Itoa(K) + "x): " + br.Detail
 					rr = br
+				} else if fr, done := fuzzCache[u]; done {
+					if fr.Reproduced {
+						rr = fr
+					}
+				} else {
+					// last resort: random inputs satisfying the preconditions, postconditions evaluated by Go
+					fr := v.fuzzSearch(o, u.root.top, u.fn, u.fc, filepath.Join(outDir, "replay"), seed)
+					fuzzCache[u] = fr
+					if fr.Reproduced {
+						fr.Detail = "found by random contract testing on the real code: " + fr.Detail
+						fuzzCache[u] = fr
+						rr = fr
+					}
 				}
 			}
 		} else {
